@@ -158,6 +158,30 @@ def shared_output_dir_case(pr):
     return None
 
 
+def clean_all_after_config_change_case(pr):
+    """a target recorded state, then disappears from the project file: `--clean` alone still removes all recorded state"""
+    pr.write("src/a.txt", "a")
+    both = yml({"compile": {"input": [{"paths": ["src"]}], "build": logging_build("compile")}, "lint": {"input": [{"paths": ["src"]}], "build": logging_build("lint")}})
+    only = yml({"compile": {"input": [{"paths": ["src"]}], "build": logging_build("compile")}})
+    pr.write("zinoma.yml", both)
+    if pr.run("compile", "lint").rc != 0:
+        return None
+    pr.write(".zinoma/notes-from-a-tool.txt", "foreign", record=False)
+    pr.write("zinoma.yml", only, record=False)
+    pr.commands.append("remove target lint from zinoma.yml")
+    r = pr.run("--clean")
+    if r.rc != 0:
+        return {"property": "C12", "expected": "`--clean` exits 0", "observed": "exit %s" % r.rc, "zinoma": r.brief()}
+    if pr.exists(".zinoma"):
+        return {"property": "C12", "expected": "`--clean` alone removes all recorded state (the whole .zinoma directory), also records of targets no longer in the project file", "observed": ".zinoma still holds %s" % sorted(os.listdir(pr.path(".zinoma"))), "zinoma": r.brief()}
+    pr.write("zinoma.yml", both, record=False)
+    pr.clear_log()
+    pr.run("lint")
+    if "s lint" not in pr.log():
+        return {"property": "C12", "expected": "after `--clean`, lint (declared again) is built, not skipped on a record older than the clean", "observed": "skipped"}
+    return None
+
+
 def no_clean_case(pr):
     _project(pr)
     if not _build_all(pr):
@@ -177,5 +201,6 @@ def cases(seed, tier="quick"):
         Case("clean", "clean-all", clean_all_case, "--clean alone: all outputs and state of all projects, nothing else, no script"),
         Case("clean", "clean-multipart-ext", clean_multipart_ext_case, "multi-part extension without its dot in a filtered output"),
         Case("clean", "shared-output-dir", shared_output_dir_case, "shared output directory with different filters; listed regular files"),
+        Case("clean", "clean-all-after-config-change", clean_all_after_config_change_case, "--clean alone after a target left the project file"),
         Case("clean", "no-clean", no_clean_case, "without --clean nothing is deleted"),
     ]
